@@ -23,8 +23,20 @@ PROPS = {
     ),
 }
 
+_BOUNDED_ONLY = ('deductive contracts for this property are not yet discharged in this build: the claim rests on the bounded native '
+                 'contract check of the real API (bounds in evidence.coverage.bounded), which is never counted as proved')
+for _pid, _nat in [('C01', 'c01'), ('C03', 'c03'), ('C04', 'c04'), ('C05', 'c05'), ('C06', 'c06'), ('C07', 'c07'), ('C08', 'c08'),
+                   ('C09', 'c09'), ('C10', 'c10'), ('C11', 'c11'), ('C12', 'c12'), ('C13', 'c13'), ('C14', 'c14'), ('C15', 'c15'),
+                   ('C16', 'c16'), ('C17', 'c17'), ('C19', 'c19'), ('C20', 'c20')]:
+    PROPS.setdefault(_pid, dict(level='other', functions=[], lemmas=[], native=_nat, assumptions=[_BOUNDED_ONLY],
+                                explanation=_BOUNDED_ONLY, design_ref='2 / ' + _pid))
+
+
+
 LEVEL_TEXT = {
     'C02': 'Every function between get_delta and the charge pattern (countPos/Neg/Neut, Fplus/Fminus, sigma, deltaForm, delta) is under a side-car contract whose postcondition is the Das-Pappu definition written from the statement (exact sums over a symbolic sequence of symbolic length); loop invariant, postconditions, frame conditions and the inductive count lemmas are discharged by z3 for all sequences. Float rounding is not modelled (bounded numeric comparison reported separately).',
 }
+for _pid in PROPS:
+    LEVEL_TEXT.setdefault(_pid, 'bounded native contract check of the real API only (exhaustive small domains + seeded random inputs, bounds in the evidence); deductive obligations for this property are still being built and nothing is claimed as proved')
 
 NOT_APPLICABLE = []
